@@ -332,7 +332,7 @@ def run_matrix(ctx, A, origin, st, is_stochastic):
 
 def run(ctx):
     thorough = ctx.tier == "thorough"
-    ctx.proofs()
+    ctx.proofs(["C02/Props.v", "C02/PropsTie.v"])
     rng = ctx.rng
     st = {"gth": [], "gth_meta": [], "sd": [], "sd_meta": [], "big": 0}
     reps = 4 if thorough else 1
